@@ -89,7 +89,7 @@ def inv_root(a, p, eps, relative=True):
   return (v * w ** (-1.0 / p)) @ v.T
 
 
-def graft_step(kind, g, hist, coefs, diag_eps):
+def graft_step(kind, g, hist, coefs, diag_eps, clip=None):
   """lr-free graft step for gradient g; hist = list of past grads incl. g (1-based s),
   coefs = accumulator coefficients over steps (floats)."""
   g = np.asarray(g, np.float64)
@@ -102,4 +102,8 @@ def graft_step(kind, g, hist, coefs, diag_eps):
     x = np.asarray(x, np.float64)
     return x / (np.linalg.norm(x) + 1e-25) if norm else x
   acc = sum(c * sc(h) ** 2 for c, h in zip(coefs, hist) if c != 0.0)
-  return sc(g) / (np.sqrt(acc) + diag_eps)
+  u = sc(g) / (np.sqrt(acc) + diag_eps)
+  if clip and kind.startswith("RMSPROP"):
+    # clip_by_scaled_gradient_norm: u / max(1, (|u| / sqrt(n)) / clip)   (RMSProp grafts only)
+    u = u / max(1.0, (np.linalg.norm(u) / np.sqrt(float(u.size))) / clip)
+  return u
